@@ -1,6 +1,7 @@
 //! C09 — a timeline is a pure, repeatable function of time. Explicit-state exploration of the
 //! timeline object API: all operation sequences up to depth D over two objects (a timeline and a
-//! clone slot), oracle = memo table filled from pristine twins.
+//! clone slot), oracle = memo table filled from pristine twins. Objects are derive-built timelines
+//! and merged timelines (components with different delays).
 
 use crate::common::*;
 use mina::prelude::*;
@@ -41,14 +42,23 @@ fn dirty() -> P {
     P { a: 31.0, k: -9, d: 0.75, u: 4.0, z: 5.0 }
 }
 
-fn times(t: &Timing) -> Vec<f32> {
-    let total_or = |x: f32| t.total().map(|tt| tt as f32 + 1.0).unwrap_or(x);
-    vec![t.delay / 2.0, t.delay + 0.3125 * t.cycle, t.delay + 0.8125 * t.cycle, t.delay + 1.3125 * t.cycle, total_or(t.delay + 2.6875 * t.cycle)]
+fn times_for(ts: &[Timing]) -> Vec<f32> {
+    let dmin = ts.iter().map(|t| t.delay).fold(f32::INFINITY, f32::min);
+    let dmax = ts.iter().map(|t| t.delay).fold(0.0, f32::max);
+    let t = ts[0];
+    let far = ts.iter().filter_map(|t| t.total()).fold(0.0f64, f64::max) as f32 + 1.0;
+    vec![dmin / 2.0, if dmax > dmin { (dmin + dmax) / 2.0 } else { t.delay + 0.3125 * t.cycle }, dmax + 0.8125 * t.cycle, dmax + 1.3125 * t.cycle, far.max(dmax + 2.6875 * t.cycle)]
+}
+
+type Meta = (u32, u32, u32, Repeat);
+
+fn meta<T: Timeline>(tl: &T) -> Meta {
+    (tl.delay().to_bits(), tl.duration().to_bits(), tl.cycle_duration().map(|c| c.to_bits()).unwrap_or(u32::MAX), tl.repeat())
 }
 
 #[derive(Clone)]
-struct St {
-    objs: [PTimeline; 2],
+struct St<T: Clone> {
+    objs: [T; 2],
     start: [Option<u8>; 2],
     prev: P,
 }
@@ -64,31 +74,82 @@ struct Acc {
 }
 
 struct Ctx<'a> {
-    spec: &'a TlSpec,
+    desc: &'a Value,
     ops: &'a [Op],
     times: &'a [f32],
     /// memo[start id (0 = none, 1..=3)][time] = result into the sentinel target from a pristine twin
     memo: Vec<Vec<P>>,
     def: (bool, bool),
-    meta: (u32, u32, u32, Repeat),
+    meta: Meta,
     depth: usize,
     rank0: u64,
 }
 
-fn meta(tl: &PTimeline) -> (u32, u32, u32, Repeat) {
-    (tl.delay().to_bits(), tl.duration().to_bits(), tl.cycle_duration().map(|c| c.to_bits()).unwrap_or(u32::MAX), tl.repeat())
-}
-
-fn opname(op: &Op, c: &Ctx) -> String {
+fn opname(op: &Op, times: &[f32]) -> String {
     match *op {
-        Op::Update { obj, kind, ti } => format!("{}.update({}, t={})", ["X", "Y"][obj as usize], ["fresh", "dirty", "previous-result"][kind as usize], c.times[ti as usize]),
+        Op::Update { obj, kind, ti } => format!("{}.update({}, t={})", ["X", "Y"][obj as usize], ["fresh", "dirty", "previous-result"][kind as usize], times[ti as usize]),
         Op::Start { obj, vi } => format!("{}.start_with(v{})", ["X", "Y"][obj as usize], vi),
         Op::CloneXY => "Y = X.clone()".into(),
         Op::CloneYX => "X = Y.clone()".into(),
     }
 }
 
-fn dfs(c: &Ctx, st: &St, hist: &mut Vec<Op>, acc: &mut Acc) {
+/// Applies one operation to the state, checking the clauses; `hist` already contains `op`.
+fn apply<T: Timeline<Target = P> + Clone>(c: &Ctx, s: &mut St<T>, op: &Op, hist: &[Op], acc: &mut Acc) {
+    acc.nodes += 1;
+    let names = || hist.iter().map(|o| opname(o, c.times)).collect::<Vec<_>>();
+    match *op {
+        Op::Update { obj, kind, ti } => {
+            let input = match kind {
+                0 => P::sentinel(),
+                1 => dirty(),
+                _ => s.prev.clone(),
+            };
+            let mut got = input.clone();
+            s.objs[obj as usize].update(&mut got, c.times[ti as usize]);
+            acc.updates += 1;
+            let m = &c.memo[s.start[obj as usize].map(|v| v as usize + 1).unwrap_or(0)][ti as usize];
+            let mut want = input.clone();
+            if c.def.0 {
+                want.a = m.a;
+            }
+            if c.def.1 {
+                want.k = m.k;
+            }
+            if acc.distinct_results.len() < 2048 {
+                acc.distinct_results.insert(got.bits());
+            }
+            if got.bits() != want.bits() {
+                let clause = match kind {
+                    0 => "after-history",
+                    1 => "depends-on-prior-target-contents",
+                    _ => "depends-on-previous-result",
+                };
+                acc.sink.add(&format!("update-result-{clause}"), c.rank0 | hist.len() as u64, || (format!("after {:?}: got {:?}, pristine twin gives {:?}", names(), got, want), json!({"object": c.desc, "history": names()})));
+            }
+            s.prev = got;
+        }
+        Op::Start { obj, vi } => {
+            s.objs[obj as usize].start_with(&starts()[vi as usize]);
+            s.start[obj as usize] = Some(vi);
+        }
+        Op::CloneXY => {
+            s.objs[1] = s.objs[0].clone();
+            s.start[1] = s.start[0];
+        }
+        Op::CloneYX => {
+            s.objs[0] = s.objs[1].clone();
+            s.start[0] = s.start[1];
+        }
+    }
+    for o in 0..2 {
+        if meta(&s.objs[o]) != c.meta {
+            acc.sink.add("metadata-changed", c.rank0 | hist.len() as u64, || (format!("metadata changed after {:?}", names()), json!({"object": c.desc, "history": names()})));
+        }
+    }
+}
+
+fn dfs<T: Timeline<Target = P> + Clone>(c: &Ctx, st: &St<T>, hist: &mut Vec<Op>, acc: &mut Acc) {
     if hist.len() == c.depth {
         acc.sequences += 1;
         return;
@@ -96,62 +157,28 @@ fn dfs(c: &Ctx, st: &St, hist: &mut Vec<Op>, acc: &mut Acc) {
     for op in c.ops {
         let mut s = st.clone();
         hist.push(*op);
-        acc.nodes += 1;
-        match *op {
-            Op::Update { obj, kind, ti } => {
-                let input = match kind {
-                    0 => P::sentinel(),
-                    1 => dirty(),
-                    _ => s.prev.clone(),
-                };
-                let mut got = input.clone();
-                s.objs[obj as usize].update(&mut got, c.times[ti as usize]);
-                acc.updates += 1;
-                let m = &c.memo[s.start[obj as usize].map(|v| v as usize + 1).unwrap_or(0)][ti as usize];
-                let mut want = input.clone();
-                if c.def.0 {
-                    want.a = m.a;
-                }
-                if c.def.1 {
-                    want.k = m.k;
-                }
-                if acc.distinct_results.len() < 2048 {
-                    acc.distinct_results.insert(got.bits());
-                }
-                if got.bits() != want.bits() {
-                    let rank = c.rank0 | hist.len() as u64;
-                    acc.sink.add("update-result-depends-on-history", rank, || {
-                        (
-                            format!("after {:?}: got {:?}, pristine twin gives {:?}", hist.iter().map(|o| opname(o, c)).collect::<Vec<_>>(), got, want),
-                            json!({"timeline": c.spec.to_json(), "history": hist.iter().map(|o| opname(o, c)).collect::<Vec<_>>()}),
-                        )
-                    });
-                }
-                s.prev = got;
-            }
-            Op::Start { obj, vi } => {
-                s.objs[obj as usize].start_with(&starts()[vi as usize]);
-                s.start[obj as usize] = Some(vi);
-            }
-            Op::CloneXY => {
-                s.objs[1] = s.objs[0].clone();
-                s.start[1] = s.start[0];
-            }
-            Op::CloneYX => {
-                s.objs[0] = s.objs[1].clone();
-                s.start[0] = s.start[1];
-            }
-        }
-        for o in 0..2 {
-            if meta(&s.objs[o]) != c.meta {
-                acc.sink.add("metadata-changed", c.rank0 | hist.len() as u64, || {
-                    (format!("metadata changed after {:?}", hist.iter().map(|o| opname(o, c)).collect::<Vec<_>>()), json!({"timeline": c.spec.to_json(), "history": hist.iter().map(|o| opname(o, c)).collect::<Vec<_>>()}))
-                });
-            }
-        }
+        apply(c, &mut s, op, hist, acc);
         dfs(c, &s, hist, acc);
         hist.pop();
     }
+}
+
+/// Explores all sequences of length `depth` whose first operation is `ops[first]`.
+fn explore<T: Timeline<Target = P> + Clone>(build: &dyn Fn() -> T, desc: &Value, def: (bool, bool), times: &[f32], ops: &[Op], first: usize, depth: usize, rank0: u64, acc: &mut Acc) {
+    let base = build();
+    let mut memo = vec![];
+    for sid in 0..4 {
+        let mut tl = build();
+        if sid > 0 {
+            tl.start_with(&starts()[sid - 1]);
+        }
+        memo.push(times.iter().map(|&t| { let mut p = P::sentinel(); tl.update(&mut p, t); p }).collect::<Vec<_>>());
+    }
+    let ctx = Ctx { desc, ops, times, memo, def, meta: meta(&base), depth, rank0 };
+    let mut st = St { objs: [base.clone(), base], start: [None, None], prev: P::sentinel() };
+    let mut hist = vec![ops[first]];
+    apply(&ctx, &mut st, &ops[first], &hist.clone(), acc);
+    dfs(&ctx, &st, &mut hist, acc);
 }
 
 pub fn run(run: Run) -> ! {
@@ -172,85 +199,47 @@ pub fn run(run: Run) -> ! {
         }
         i += 1;
     }
-    // work items: (spec, theta, first op) to spread over cores
+    // objects: every (keyframe list, timing) as a plain timeline; plus merged pairs whose components
+    // have different delays (and one merged single)
+    let mut objects: Vec<Vec<TlSpec>> = vec![];
+    for (si, k) in kfss.iter().enumerate() {
+        for th in &thetas {
+            objects.push(vec![TlSpec { kfs: k.clone(), default_easing: if si % 2 == 0 { 0 } else { 3 }, timing: *th }]);
+        }
+    }
+    let n_single = objects.len();
+    let pairs = [(0usize, 1usize), (1, 4), (3, 2), (4, 1), (5, 3), (1, 3)];
+    for (pi, &(t1, t2)) in pairs.iter().enumerate() {
+        for v in 0..(nspecs / 5).max(2) {
+            let a = &kfss[(pi + v) % kfss.len()];
+            let b = &kfss[(pi * 3 + v + 1) % kfss.len()];
+            objects.push(vec![TlSpec { kfs: a.clone(), default_easing: 0, timing: thetas[t1] }, TlSpec { kfs: b.clone(), default_easing: 3, timing: thetas[t2] }]);
+        }
+    }
     let ops = alphabet(5);
     let mut items = vec![];
-    for si in 0..kfss.len() {
-        for ti in 0..thetas.len() {
-            for fo in 0..ops.len() {
-                items.push((si, ti, fo));
-            }
+    for oi in 0..objects.len() {
+        for fo in 0..ops.len() {
+            items.push((oi, fo));
         }
     }
     let acc = par_fold(
         items.len(),
         Acc::default,
         |ii, acc| {
-            let (si, ti, fo) = items[ii];
-            let spec = TlSpec { kfs: kfss[si].clone(), default_easing: if si % 2 == 0 { 0 } else { 3 }, timing: thetas[ti] };
-            let tms = times(&spec.timing);
-            let base = spec.build();
-            let mut memo = vec![];
-            for sid in 0..4 {
-                let mut tl = spec.build();
-                if sid > 0 {
-                    tl.start_with(&starts()[sid - 1]);
-                }
-                memo.push(tms.iter().map(|&t| eval_real(&tl, t, &P::sentinel())).collect::<Vec<_>>());
+            let (oi, fo) = items[ii];
+            let specs = &objects[oi];
+            let desc = json!({"components": specs.iter().map(|s| s.to_json()).collect::<Vec<_>>(), "merged": oi >= n_single});
+            let def = (specs.iter().any(|s| s.kfs.iter().any(|k| k.a.is_some())), specs.iter().any(|s| s.kfs.iter().any(|k| k.k.is_some())));
+            let tms = times_for(&specs.iter().map(|s| s.timing).collect::<Vec<_>>());
+            let rank0 = (oi as u64) << 32 | (fo as u64) << 8;
+            if oi < n_single {
+                explore::<PTimeline>(&|| specs[0].build(), &desc, def, &tms, &ops, fo, depth, rank0, acc);
+            } else {
+                explore::<MergedTimeline<PTimeline>>(&|| MergedTimeline::of(specs.iter().map(|s| s.build()).collect::<Vec<_>>()), &desc, def, &tms, &ops, fo, depth, rank0, acc);
             }
-            let ctx = Ctx {
-                spec: &spec,
-                ops: &ops,
-                times: &tms,
-                memo,
-                def: (spec.kfs.iter().any(|k| k.a.is_some()), spec.kfs.iter().any(|k| k.k.is_some())),
-                meta: (spec.timing.delay.to_bits(), base.duration().to_bits(), spec.timing.cycle.to_bits(), spec.timing.rep.real()),
-                depth,
-                rank0: (si as u64) << 40 | (ti as u64) << 32 | (fo as u64) << 8,
-            };
-            // the first operation is fixed by the work item; the rest is explored exhaustively
-            let st = St { objs: [base.clone(), base.clone()], start: [None, None], prev: P::sentinel() };
-            let sub = Ctx { ops: &ops[fo..fo + 1], depth: 1, ..Ctx { memo: ctx.memo.clone(), ..ctx } };
-            // apply first op via a depth-1 dfs on a copy to reuse the checking code, then continue
-            let mut hist = vec![];
-            let mut first_state = st.clone();
-            {
-                // replicate op application (without recursion) by running dfs with depth 1 for checks
-                let mut a2 = Acc::default();
-                dfs(&sub, &st, &mut hist, &mut a2);
-                acc.sink.merge(a2.sink);
-                acc.nodes += a2.nodes;
-                acc.updates += a2.updates;
-                // now actually apply to obtain the successor state
-                match ops[fo] {
-                    Op::Update { obj, kind, ti } => {
-                        let mut got = match kind {
-                            0 => P::sentinel(),
-                            1 => dirty(),
-                            _ => first_state.prev.clone(),
-                        };
-                        first_state.objs[obj as usize].update(&mut got, tms[ti as usize]);
-                        first_state.prev = got;
-                    }
-                    Op::Start { obj, vi } => {
-                        first_state.objs[obj as usize].start_with(&starts()[vi as usize]);
-                        first_state.start[obj as usize] = Some(vi);
-                    }
-                    Op::CloneXY => {
-                        first_state.objs[1] = first_state.objs[0].clone();
-                        first_state.start[1] = first_state.start[0];
-                    }
-                    Op::CloneYX => {
-                        first_state.objs[0] = first_state.objs[1].clone();
-                        first_state.start[0] = first_state.start[1];
-                    }
-                }
-            }
-            let ctx2 = Ctx { ops: &ops, depth, ..sub };
-            let mut hist = vec![ops[fo]];
-            dfs(&ctx2, &first_state, &mut hist, acc);
-            if acc.samples.len() < 2 && si == 1 && ti == 3 && fo == 7 {
-                acc.samples.push(json!({"timeline": spec.to_json(), "first_op": opname(&ops[fo], &ctx2), "alphabet": ops.iter().map(|o| opname(o, &ctx2)).collect::<Vec<_>>(), "depth": depth}));
+            if acc.samples.len() < 2 && (oi == 9 || oi == n_single + 1) && fo == 7 {
+                acc.samples.push(json!({"object": desc, "first_op": opname(&ops[fo], &tms), "alphabet": ops.iter().map(|o| opname(o, &tms)).collect::<Vec<_>>(), "depth": depth}));
             }
         },
         |a, b| {
@@ -270,16 +259,62 @@ pub fn run(run: Run) -> ! {
     cov.insert("traces_validated_against_impl".into(), json!(acc.sequences));
     cov.insert("evaluations".into(), json!(acc.updates));
     cov.insert("distinct_nontrivial".into(), json!(acc.sequences));
-    cov.insert("rule".into(), json!(format!("{} timelines (from T(2),T(3)) x 6 timings; objects X and Y (clone slot); alphabet of {} operations: update(obj, target in {{fresh sentinel, dirty, previous result}}, 5 times spanning before-start/first pass/second pass-or-after-end/far), start_with(obj, 3 values), Y=X.clone(), X=Y.clone(); ALL sequences of length {} (stateless DFS, state = history); oracle: every update equals the memo entry (latest start value of that object, time) computed on a pristine twin into a fresh target, untouched fields keep the input's bits; delay/cycle/duration/repeat never change; non-trivial = complete sequences", kfss.len(), ops.len(), depth)));
+    cov.insert("rule".into(), json!(format!("{} plain timelines ({} keyframe lists from T(2),T(3) x 6 timings) and {} merged timelines (two components with different delays/timings); objects X and Y (clone slot); alphabet of {} operations: update(obj, target in {{fresh sentinel, dirty, previous result}}, 5 times spanning before-start / between the component delays / first pass / second pass-or-after-end / far), start_with(obj, 3 values), Y=X.clone(), X=Y.clone(); ALL sequences of length {} (stateless DFS, state = history); oracle: every update equals the memo entry (latest start value of that object, time) computed on a pristine twin into a fresh target, untouched fields keep the input's bits; delay/cycle/duration/repeat never change; non-trivial = complete sequences", n_single, kfss.len(), objects.len() - n_single, ops.len(), depth)));
     cov.insert("exhaustive".into(), json!(true));
     cov.insert("depth".into(), json!(depth));
     cov.insert("distinct_update_results_capped".into(), json!(acc.distinct_results.len()));
     cov.insert("samples".into(), json!(acc.samples));
-    run.finish(acc.sink, cov, vec!["relational oracle (pristine twin of the same build); the twin itself is bound to the reference by C01/C10".into()])
+    run.finish(acc.sink, cov, vec!["relational oracle (pristine twin of the same build); the twin itself is bound to the reference by C01/C10/C12".into()])
 }
 
 pub fn replay(case: &Value) -> bool {
-    println!("C09 replay: re-run the listed history by hand:\n{}", serde_json::to_string_pretty(case).unwrap());
-    // Histories are textual; re-running the whole (small) exploration reproduces them.
-    false
+    // Re-executes the recorded history on a fresh object and its pristine twins.
+    let specs: Vec<TlSpec> = case["object"]["components"].as_array().map(|a| a.iter().map(TlSpec::from_json).collect()).unwrap_or_default();
+    let merged = case["object"]["merged"].as_bool().unwrap_or(false);
+    let hist_names: Vec<String> = case["history"].as_array().map(|a| a.iter().map(|x| x.as_str().unwrap_or("").to_string()).collect()).unwrap_or_default();
+    let tms = times_for(&specs.iter().map(|s| s.timing).collect::<Vec<_>>());
+    let ops = alphabet(5);
+    let mut hist: Vec<Op> = vec![];
+    for n in &hist_names {
+        match ops.iter().find(|o| &opname(o, &tms) == n) {
+            Some(o) => hist.push(*o),
+            None => {
+                println!("cannot decode operation {n}");
+                return false;
+            }
+        }
+    }
+    if hist.is_empty() {
+        return true;
+    }
+    let def = (specs.iter().any(|s| s.kfs.iter().any(|k| k.a.is_some())), specs.iter().any(|s| s.kfs.iter().any(|k| k.k.is_some())));
+    let desc = case["object"].clone();
+    let mut acc = Acc::default();
+    // run exactly this history: restrict the alphabet per step by exploring depth == 1 chains
+    fn run_hist<T: Timeline<Target = P> + Clone>(build: &dyn Fn() -> T, desc: &Value, def: (bool, bool), tms: &[f32], hist: &[Op], acc: &mut Acc) {
+        let base = build();
+        let mut memo = vec![];
+        for sid in 0..4 {
+            let mut tl = build();
+            if sid > 0 {
+                tl.start_with(&starts()[sid - 1]);
+            }
+            memo.push(tms.iter().map(|&t| { let mut p = P::sentinel(); tl.update(&mut p, t); p }).collect::<Vec<_>>());
+        }
+        let ctx = Ctx { desc, ops: &[], times: tms, memo, def, meta: meta(&base), depth: hist.len(), rank0: 0 };
+        let mut st = St { objs: [base.clone(), base], start: [None, None], prev: P::sentinel() };
+        for i in 0..hist.len() {
+            apply(&ctx, &mut st, &hist[i], &hist[..=i], acc);
+            println!("{} -> previous-result {:?}", opname(&hist[i], tms), st.prev);
+        }
+    }
+    if merged {
+        run_hist::<MergedTimeline<PTimeline>>(&|| MergedTimeline::of(specs.iter().map(|s| s.build()).collect::<Vec<_>>()), &desc, def, &tms, &hist, &mut acc);
+    } else {
+        run_hist::<PTimeline>(&|| specs[0].build(), &desc, def, &tms, &hist, &mut acc);
+    }
+    for (s, v) in &acc.sink.map {
+        println!("{s}: {}", v.desc);
+    }
+    acc.sink.map.is_empty()
 }
